@@ -186,4 +186,20 @@ CHECKS = {
         level_note="Only API-observable state is compared (unexported fields are not rendered). Option-level ToBytes of byte-slice options returns the option's own slice by design; the output clause is checked at message level.",
         assumptions=["observers as enumerated by harness/obs (mutators excluded)"],
     ),
+    "C20": dict(
+        title="Reading or printing a message never changes it",
+        stages=[dict(name="pure", shards=S16, timeout={"quick": 1200, "thorough": 7200}),
+                dict(name="race", race=True, shards={"quick": 8, "thorough": 16}, timeout={"quick": 1200, "thorough": 7200})],
+        rule="subjects: generated and decoded DHCPv4 packets, generated and decoded DHCPv6 messages/relay chains (every option type), standalone DHCPv6 options and DUIDs, standalone DHCPv4 option values built by "
+             "every exported constructor with caller-owned argument slices (rendered as an extra observable). Operations: every reflectively reachable exported non-mutating method (ToBytes, String, Summary, accessors, "
+             "with synthesised arguments) + builders/helpers. Orders: forward, reverse, each call twice in a row, 2 (quick) / 5 (thorough) seeded permutations, each on a FRESH identical copy; for operation sets <= 40 the "
+             "reference is each operation evaluated first on its own pristine copy, and for sets <= 12 ALL sequences of <= 3 calls are followed by a full comparison. Shape = subject kind + size class.",
+        technique="order-differential purity monitor over fresh identical copies of each value (pristine per-operation references for small operation sets, exhaustive sequences of <= 3 calls), plus a reader-writes detector: two goroutines running the same read-only calls under the Go race detector",
+        level_text="A read-only call that changes any later result (encoding, printed form, accessor result, or the caller's own slices) makes some operation's result depend on what ran before it, which the comparison "
+                   "against pristine / differently-ordered evaluations exposes; repeated calls must return equal results. Race reports name writes by 'read-only' methods and are counted as suspects (the sequential oracle decides).",
+        level_note="Only API-observable state is compared (exported fields, method results). For whole messages (hundreds of operations) the reference is one forward pass, so a change masked in every tried order would be missed; "
+                   "such an effect still shows on the standalone-value subjects with pristine references.",
+        assumptions=["fresh copies are produced by re-running the seeded generator / re-decoding the same bytes (checked to be deterministic)"],
+        exhaustive_note="all sequences of <= 3 read-only calls for every subject with <= 12 operations",
+    ),
 }
